@@ -29,6 +29,7 @@ import (
 func main() { mon.Main("C15", "exploration", mon.Options{}, run) }
 
 var r *mon.Run
+var nLonger int64
 
 const frontGuard, rearGuard = 16, 64
 
@@ -118,6 +119,35 @@ func checkPackable(kind string, desc string, sizeFn func() uint, pack func(dst [
 	if _, _, pan := packInto(int(size), 2, 99, true, pack); pan != "" {
 		r.Violate("pack.panic-exact", attrs, cs, "%s.Pack into an exact-capacity buffer of %d bytes panicked: %s (value %s)", kind, size, pan, trunc(desc))
 		return
+	}
+	// a destination longer than the reported size (a scratch buffer, frames packed back to
+	// back): the same bytes must be written, nothing beyond the reported size touched
+	{
+		extra := 1 + int(size*7+3)%16
+		arena := make([]byte, frontGuard+int(size)+rearGuard)
+		rand.New(rand.NewSource(int64(size)*131 + 7)).Read(arena)
+		ref := append([]byte(nil), arena...)
+		dst := arena[frontGuard : frontGuard+int(size)+extra]
+		if pan := mon.Guard(func() { pack(dst) }); pan != "" {
+			r.Violate("pack.panic-longer", attrs, cs, "%s.Pack into a buffer %d bytes longer than its reported size %d panicked: %s (value %s)", kind, extra, size, pan, trunc(desc))
+			return
+		}
+		atomic.AddInt64(&nLonger, 1)
+		if !bytes.Equal(arena[frontGuard:frontGuard+int(size)], outs[0]) {
+			d := 0
+			for d < int(size) && arena[frontGuard+d] == outs[0][d] {
+				d++
+			}
+			cs["exact_buffer"], cs["longer_buffer"] = hex.EncodeToString(clip(outs[0])), hex.EncodeToString(clip(arena[frontGuard:frontGuard+int(size)]))
+			r.Violate("pack.length-dependent", attrs, cs, "%s.Pack writes different bytes (first at offset %d) when the destination is %d bytes longer than the reported size %d (value %s)", kind, d, extra, size, trunc(desc))
+			return
+		}
+		for i := range arena {
+			if (i < frontGuard || i >= frontGuard+int(size)) && arena[i] != ref[i] {
+				r.Violate("pack.overrun", attrs, cs, "%s.Pack into a longer destination: byte %d beyond the reported size %d was written (value %s)", kind, i-frontGuard, size, trunc(desc))
+				return
+			}
+		}
 	}
 	if want != nil && !bytes.Equal(outs[0], want) {
 		cs["library"], cs["expected"] = hex.EncodeToString(outs[0]), hex.EncodeToString(want)
@@ -463,6 +493,7 @@ func run(rr *mon.Run) {
 	loopbackConcurrent(r.Pick(20000, 400000))
 	r.Observe("frames", atomic.LoadInt64(&nFrames))
 	r.Observe("packables_checked", atomic.LoadInt64(&nPackables))
+	r.Observe("packed_into_longer_destinations", atomic.LoadInt64(&nLonger))
 	r.Observe("oversize_frames", atomic.LoadInt64(&nOversize))
 	r.Observe("non_latin1_names", atomic.LoadInt64(&nNonLatin))
 	r.Observe("loopback_datagrams_compared", atomic.LoadInt64(&nDatagrams))
